@@ -3,9 +3,9 @@
 # quick check first, then the checks named in its result.txt) and write seeded/MATRIX.txt.
 # Nothing else may use /repo or build rvsim while this runs.
 cd /verif
-out=seeded/MATRIX.txt
+out=${MATRIX_OUT:-seeded/MATRIX.txt}
 : > $out
-for d in seeded/*/; do
+for d in seeded/${ONLY:-*}/; do
   n=$(basename $d)
   [ -f $d/patch.diff ] || continue
   id=$(echo $n | sed -n 's/^\(own-\)\{0,1\}\(C[0-9][0-9]\).*/\2/p')
